@@ -226,7 +226,7 @@ def check(ctx, tree, leaves0, dsl, cfg):  # noqa: C901, PLR0912, PLR0915
 def run_shard(ctx):
     cfgs = None
     if ctx.tier == 'quick':
-        cfgs = e1.configs('quick', predicates=['none', 'is_tuple', 'leafbox'])
+        cfgs = e1.configs('quick', predicates=['none', 'tuple_or_none', 'leafbox'])
     e1.drive(ctx, ctx.tier, lambda tree, leaves, dsl, cfg: check(ctx, tree, leaves, dsl, cfg),
              profile='tiny', cfgs=cfgs)
 
